@@ -614,6 +614,7 @@ func runEngine(workdir string) {
 		switch {
 		case f[0] == "reset":
 			prev := w.dir
+			staleLockMs.Store(0)
 			fresh()
 			if os.Getenv("DH_DIR") == "" {
 				os.RemoveAll(prev)
@@ -713,10 +714,15 @@ type flakyAccount struct {
 	l  e2wtypes.AccountLocker
 	s  e2wtypes.AccountSigner
 	wp e2wtypes.AccountWalletProvider
+	// stale: the lock state is reported truthfully but late (stalelock); otherwise it cannot be determined (fault u)
+	stale bool
 }
 
+// staleLockMs > 0: see config line `stalelock`.
+var staleLockMs, staleLockCount atomic.Int64
+
 func wrapFlaky(a e2wtypes.Account) e2wtypes.Account {
-	if a == nil || !lockStateFail.Load() {
+	if a == nil || !(lockStateFail.Load() || staleLockMs.Load() > 0) {
 		return a
 	}
 	l, ok1 := a.(e2wtypes.AccountLocker)
@@ -725,10 +731,19 @@ func wrapFlaky(a e2wtypes.Account) e2wtypes.Account {
 	if !(ok1 && ok2 && ok3) {
 		return a
 	}
-	return &flakyAccount{Account: a, l: l, s: s, wp: wp}
+	return &flakyAccount{Account: a, l: l, s: s, wp: wp, stale: !lockStateFail.Load()}
 }
 
-func (a *flakyAccount) IsUnlocked(context.Context) (bool, error) {
+func (a *flakyAccount) IsUnlocked(ctx context.Context) (bool, error) {
+	if a.stale {
+		v, err := a.l.IsUnlocked(ctx)
+		if err == nil && !v {
+			if n := staleLockCount.Add(1); n > 1 {
+				time.Sleep(time.Duration((n-1)*staleLockMs.Load()) * time.Millisecond)
+			}
+		}
+		return v, err
+	}
 	return false, errors.New("injected: lock state cannot be determined")
 }
 func (a *flakyAccount) Lock(ctx context.Context) error                { return a.l.Lock(ctx) }
